@@ -456,6 +456,8 @@ def cases(rng, n, subprocess_safe):
             tgt = {q: rng.choice(T.VALUES[ver][q]) for q in T.ORDER[ver]}
             answers = DLG.script_for(order, tgt, rng, noise=0.15, case=rng.choice(("asis", "lower", "upper", "mixed")), ver=ver)
             rr = rng.random()
+            if rr > 0.97:
+                answers = [rng.choice(["?", "zz", "0"])] * 1300 + answers  # the same wrong answer for a long time first
             if rr < 0.35:
                 answers = answers[:rng.randrange(len(answers) + 1)]
             argv = vf + of + (["-v", ""] if rng.random() < 0.1 else [])
